@@ -683,6 +683,55 @@ class Verdicts:
         self.rep.violation("%s: %s" % (oracle, what), payload)
 
 
+def scalar_box_stream(rep, ver, rng, count):
+    """Oracle-only stream on the real objects: every way the library spells a pure scalar
+    (scalar(z), sqrt(z), their daggers) with real, negative and complex data, alone and in front
+    of a small pure circuit that is then measured.  The mixed evaluation of a pure scalar box s is
+    conj(s) * s = |s.eval()|**2 (the Born rule), whatever class s has."""
+    from discopy.quantum import gates as G
+    from discopy.quantum.circuit import Id, Measure, Discard
+    fixed = [2, 4, 0.5, 0.25, -1, -2, -0.5, 1j, 3 - 4j, -0.3 + 0.1j, 0, 1]
+    bad = 0
+    for i in range(count):
+        z = fixed[i] if i < len(fixed) else rng.choice([
+            rng.uniform(-3, 3), complex(rng.uniform(-2, 2), rng.uniform(-2, 2)),
+            rng.randint(-4, 4), 1j * rng.randint(-3, 3)])
+        make = rng.choice([G.sqrt, G.scalar]) if i >= 2 * len(fixed) else (G.sqrt, G.scalar)[i % 2]
+        if i >= len(fixed) and i < 2 * len(fixed):
+            z = fixed[i - len(fixed)]
+        box = make(z)
+        if rng.random() < 0.3:
+            box = box.dagger()
+        rep.count("stream:scalar-boxes")
+        rep.count("scalar-box:" + type(box).__name__)
+        what = None
+        try:
+            pure = complex(numpy.asarray(box.eval().array).flatten()[0])
+            mixed = complex(numpy.asarray(box.eval(mixed=True).array).flatten()[0])
+            if abs(mixed - abs(pure) ** 2) > ATOL:
+                what = "%s.eval(mixed=True) = %r but |%s.eval()|**2 = %r" % (
+                    box, mixed, box, abs(pure) ** 2)
+            else:
+                circuit = box @ G.Ket(0, 1) >> G.H @ G.X >> Measure() @ Discard()
+                probs = numpy.asarray(circuit.eval(mixed=True).array, dtype=complex).flatten()
+                want = numpy.array([abs(pure) ** 2 / 2] * 2)
+                if probs.shape != want.shape or not numpy.allclose(probs, want, atol=ATOL, rtol=0):
+                    what = "%s @ (fair coin) evaluates to %r instead of %r" % (
+                        box, list(probs), list(want))
+        except Exception as exc:   # noqa: a pure scalar always evaluates
+            what = "evaluating %s raised %s: %s" % (box, type(exc).__name__, exc)
+        if what is None:
+            ver.ok("O_double_scalar")
+        else:
+            bad += 1
+            rep.count("oracle:O_double_scalar:FAIL")
+            if bad <= 3:
+                rep.violation("O_double_scalar: " + what,
+                              {"oracle": "O_double_scalar", "box": repr(box), "data": repr(z),
+                               "replay": "from discopy.quantum import *; b = %r; "
+                                         "b.eval(mixed=True), abs(b.eval().array) ** 2" % (box,)})
+
+
 def run(tier, seed):
     import cq_impl as ci
     rep = Report("C12", tier, seed)
@@ -950,6 +999,7 @@ def run(tier, seed):
                     ver.fail("O_measure", "measure() of a pure circuit is not the squared magnitudes "
                              "of the amplitudes of Ket(0..0) >> c", c, [4, p], c["impl"][("obs", 4)],
                              c["model"][("obs", 4)])
+    scalar_box_stream(rep, ver, rng, 120 if tier == "quick" else 1200)
     rep.extra["oracle_failures"] = ver.fails
     rep.extra["impl_counts"] = dict(ci.COUNTS, unknown_classes=list(ci.UNKNOWN_CLASSES))
     settle(rep, ci, proof_ok)
